@@ -576,7 +576,7 @@ def run_tlc_shards(scratch, cfg, verdict):
 
     def one(s):
         return tlcrun.run_tlc("Cmdline_MC.tla", "Cmdline_MC.cfg", scratch, workers=1, timeout=1500, heap="3g",
-                              gc=tlcrun.SMALL_JVM,
+                              gc=tlcrun.SMALL_JVM, java_props=("-Xss32m",),      # (Run/Flat recurse per token)
                               env={"OUT_FILE": outs[s], "C13_PARTS": cfg["parts"], "C13_TOTAL": str(cfg["total"]),
                                    "C13_SHARD": str(s), "C13_SHARDS": str(cfg["shards"])})
     t0 = time.time()
